@@ -116,6 +116,7 @@ class Recorder:
         self.own_pos = []
         self.time_types = []
         self.row_uses = {}
+        self._enum_names = {}
         self._node = None
         self.commands = {}
         self.tick = float(scn.get("tick", TICK))
@@ -220,6 +221,18 @@ class Recorder:
             return 0.0
         return self.secs(ticks)
 
+    def tname(self, name):
+        """scenario flag enumNames: timer names are members of a `str` enumeration (`class Timers(str, Enum)`), as
+        protocols often declare them: equal to, hashing like and delivered as their string value"""
+        if not self.scn.get("enumNames"):
+            return name
+        m = self._enum_names.get(name)
+        if m is None:
+            import enum
+            m = enum.Enum("Timers", {"MEMBER": name}, type=str).MEMBER
+            self._enum_names[name] = m
+        return m
+
     def num(self, x):
         """scenario flag intArgs: integral quantities are handed over as Python ints (a protocol that
         writes `schedule_timer("a", 3)` or `GotoCoordsMobilityCommand(10, 0, 5)` is using the API legitimately)"""
@@ -241,14 +254,14 @@ class Recorder:
         kw = bool(self.scn.get("keywordArgs"))
         if op == "setTimer":
             if kw:      # the parameter names the IProvider interface publishes
-                p.schedule_timer(timer=req[1], timestamp=self.num(self.secs(req[2])))
+                p.schedule_timer(timer=self.tname(req[1]), timestamp=self.num(self.secs(req[2])))
             else:
-                p.schedule_timer(req[1], self.num(self.secs(req[2])))
+                p.schedule_timer(self.tname(req[1]), self.num(self.secs(req[2])))
         elif op == "cancelTimer":
             if kw:
-                p.cancel_timer(timer=req[1])
+                p.cancel_timer(timer=self.tname(req[1]))
             else:
-                p.cancel_timer(req[1])
+                p.cancel_timer(self.tname(req[1]))
         elif op == "send":
             p.send_communication_command(self.command(proto, "send", req[1], req[2]))
         elif op == "broadcast":
@@ -367,6 +380,8 @@ def make_protocol_class(rec):
 
         def handle_timer(self, timer):
             self._attach("timer")
+            if self._rec.scn.get("enumNames") and isinstance(timer, str) and type(timer) is not str:
+                timer = str.__str__(timer) if timer == str.__str__(timer) else repr(timer)   # the member's value
             self._rec.on_callback(self, "timer", timer)
 
         def handle_packet(self, message):
